@@ -23,6 +23,9 @@ extern "C" const char *__asan_default_options() { return "exitcode=77:detect_lea
 extern "C" const char *__ubsan_default_options() { return "print_stacktrace=1:halt_on_error=1:exitcode=77"; }
 
 int main(int argc, char **argv) {
+#ifdef SIM_BUILD_RACE
+    sim::g_race_build = true;
+#endif
     ThrEngine e;
     return worker_main(argc, argv, e);
 }
